@@ -516,7 +516,15 @@ for nm in ['CODE.CONTAINS', 'CODE.MEMBER']:
     row(nm, ['C08'], fired='(S0.code.len() >= 2)', pushes=[('bool', None)])
 row('CODE.DISCREPANCY', ['C08'], fired='(S0.code.len() >= 2)', pushes=[('int', None)])
 row('CODE.DEFINITION', ['C07'], takes=[('name', 1)], guard='S0.bindings.contains_key(top(S0.name, 0))', pushes=[('code', 'S0.bindings[top(S0.name, 0)]')])
-row('CODE.EXTRACT', ['C08'], takes=[('int', 1)], guard='S0.code.len() >= 1', pushes=[('code', None)])
+PTS = 'crate::push::item::points'
+NTH = 'crate::push::item::nth_point'
+_c = 'top(S0.code, 0)'
+_i = 'top(S0.int, 0)'
+# EXTRACT: index i in range -> the i-th point (depth first); any other index -> some point of the item (the "meaningful range")
+row('CODE.EXTRACT', ['C08'], takes=[('int', 1)], guard='S0.code.len() >= 1', pushes=[('code', None)], clauses=[
+    ('fired.value.code.inrange', '(S0.int.len() >= 1 && S0.code.len() >= 1 && 0 <= %s < %s(%s)) ==> Some(top(S1.code, 0)) == %s(%s, %s as nat)' % (_i, PTS, _c, NTH, _c, _i)),
+    ('fired.value.code.normalised', '(S0.int.len() >= 1 && S0.code.len() >= 1) ==> exists|k: nat| k < %s(%s) && Some(top(S1.code, 0)) == %s(%s, k)' % (PTS, _c, NTH, _c))])
+row('CODE.SIZE', ['C08'], fired='(S0.code.len() >= 1)', pushes=[('int', '%s(%s) as i32' % (PTS, _c))])
 row('CODE.FROMBOOLEAN', ['C04', 'C08'], takes=[('bool', 1)], pushes=[('code', '%s::Literal { push_type: crate::push::item::PushType::Bool { val: top(S0.bool, 0) } }' % IT)])
 row('CODE.FROMFLOAT', ['C04', 'C08'], takes=[('float', 1)], pushes=[('code', '%s::Literal { push_type: crate::push::item::PushType::Float { val: top(S0.float, 0) } }' % IT)])
 row('CODE.FROMINTEGER', ['C04', 'C08'], takes=[('int', 1)], pushes=[('code', '%s::Literal { push_type: crate::push::item::PushType::Int { val: top(S0.int, 0) } }' % IT)])
@@ -533,7 +541,6 @@ row('CODE.NTH', ['C08'], takes=[('int', 1)], guard='S0.code.len() >= 1', pushes=
 row('CODE.NULL', ['C08'], fired='(S0.code.len() >= 1)', pushes=[('bool', 'top(S0.code, 0) is List && top(S0.code, 0)->items@.len() == 0')])
 row('CODE.POSITION', ['C08'], fired='(S0.code.len() >= 2)', pushes=[('int', None)])
 row('CODE.PRINT', ['C11'], fired='(S0.code.len() >= 1)', pushes=[('name', None)])
-row('CODE.SIZE', ['C08'], fired='(S0.code.len() >= 1)', pushes=[('int', None)])
 row('CODE.SUBST', ['C08'], takes=[('code', 3)], pushes=[('code', None)])
 
 # ------------------------------------------------------------------ C18: GRAPH instructions -- operands, footprint, snapshots
